@@ -43,9 +43,12 @@ func admWaitDur() time.Duration {
 	return admWait
 }
 
+// an SDP without parameter sets: AvPacket2RtmpRemuxer.OnSdp (which runs in a goroutine of its own)
+// then emits nothing, so no sequence header reaches the subscribers at an uncontrolled moment and
+// the group's codec information stays empty
 const admSdp = "v=0\r\no=- 0 0 IN IP4 127.0.0.1\r\ns=No Name\r\nc=IN IP4 127.0.0.1\r\nt=0 0\r\n" +
 	"m=video 0 RTP/AVP 96\r\na=rtpmap:96 H264/90000\r\n" +
-	"a=fmtp:96 packetization-mode=1; sprop-parameter-sets=Z2QAIKzZQMApsBEAAAMAAQAAAwAyDxgxlg==,aOvssiw=; profile-level-id=640020\r\n" +
+	"a=fmtp:96 packetization-mode=1\r\n" +
 	"a=control:streamid=0\r\n"
 
 type admSess struct {
@@ -63,14 +66,14 @@ type admSess struct {
 }
 
 type admAttempt struct {
-	name    string // p<stream>_<i>
-	stream  string
-	state   string // held, released, attached, finished
-	conn    net.Conn
-	key     string
-	sess    *rtmp.PullSession
-	origin  *rtmp.ServerSession
-	odone   chan struct{}
+	name   string // p<stream>_<i>
+	stream string
+	state  string // held, released, attached, finished
+	conn   net.Conn
+	key    string
+	sess   *rtmp.PullSession
+	origin *rtmp.ServerSession
+	odone  chan struct{}
 }
 
 type admPush struct {
@@ -81,23 +84,23 @@ type admPush struct {
 }
 
 type admCase struct {
-	sm       *logic.ServerManager
-	rtmpSrv  *rtmp.Server
-	rtspSrv  *rtsp.Server
-	nh       *admNotify
-	sess     map[string]*admSess
-	keyName  map[string]string
-	cur      *admSess
-	pipes    map[string]int
-	lns      map[string]*admListener // stream -> origin listener
-	static   *admListener
-	att      map[string]*admAttempt // stream -> outstanding attempt
-	attCount map[string]int
+	sm        *logic.ServerManager
+	rtmpSrv   *rtmp.Server
+	rtspSrv   *rtsp.Server
+	nh        *admNotify
+	sess      map[string]*admSess
+	keyName   map[string]string
+	cur       *admSess
+	pipes     map[string]int
+	lns       map[string]*admListener // stream -> origin listener
+	static    *admListener
+	att       map[string]*admAttempt // stream -> outstanding attempt
+	attCount  map[string]int
 	attByName map[string]*admAttempt
-	pushLns  []*admListener
-	push     map[string]*admPush // stream|target index
-	nseen    int
-	disposed bool
+	pushLns   []*admListener
+	push      map[string]*admPush // stream|target index
+	nseen     int
+	disposed  bool
 	originObs *admOriginObs
 	originSrv *rtmp.Server
 	anomalies []string
@@ -116,13 +119,19 @@ func (o admObs) OnRtmpConnect(s *rtmp.ServerSession, opa rtmp.ObjectPairArray) {
 	o.learn(s.UniqueKey())
 	o.c.sm.OnRtmpConnect(s, opa)
 }
-func (o admObs) OnNewRtmpPubSession(s *rtmp.ServerSession) error { return o.c.sm.OnNewRtmpPubSession(s) }
-func (o admObs) OnDelRtmpPubSession(s *rtmp.ServerSession)       { o.c.sm.OnDelRtmpPubSession(s) }
-func (o admObs) OnNewRtmpSubSession(s *rtmp.ServerSession) error { return o.c.sm.OnNewRtmpSubSession(s) }
-func (o admObs) OnDelRtmpSubSession(s *rtmp.ServerSession)       { o.c.sm.OnDelRtmpSubSession(s) }
+func (o admObs) OnNewRtmpPubSession(s *rtmp.ServerSession) error {
+	return o.c.sm.OnNewRtmpPubSession(s)
+}
+func (o admObs) OnDelRtmpPubSession(s *rtmp.ServerSession) { o.c.sm.OnDelRtmpPubSession(s) }
+func (o admObs) OnNewRtmpSubSession(s *rtmp.ServerSession) error {
+	return o.c.sm.OnNewRtmpSubSession(s)
+}
+func (o admObs) OnDelRtmpSubSession(s *rtmp.ServerSession) { o.c.sm.OnDelRtmpSubSession(s) }
 
-func (o admObs) OnNewRtspSessionConnect(s *rtsp.ServerCommandSession) { o.c.sm.OnNewRtspSessionConnect(s) }
-func (o admObs) OnDelRtspSession(s *rtsp.ServerCommandSession)        { o.c.sm.OnDelRtspSession(s) }
+func (o admObs) OnNewRtspSessionConnect(s *rtsp.ServerCommandSession) {
+	o.c.sm.OnNewRtspSessionConnect(s)
+}
+func (o admObs) OnDelRtspSession(s *rtsp.ServerCommandSession) { o.c.sm.OnDelRtspSession(s) }
 func (o admObs) OnNewRtspPubSession(s *rtsp.PubSession) error {
 	o.learn(s.UniqueKey())
 	return o.c.sm.OnNewRtspPubSession(s)
@@ -132,8 +141,10 @@ func (o admObs) OnNewRtspSubSessionDescribe(s *rtsp.SubSession) (bool, []byte) {
 	o.learn(s.UniqueKey())
 	return o.c.sm.OnNewRtspSubSessionDescribe(s)
 }
-func (o admObs) OnNewRtspSubSessionPlay(s *rtsp.SubSession) error { return o.c.sm.OnNewRtspSubSessionPlay(s) }
-func (o admObs) OnDelRtspSubSession(s *rtsp.SubSession)           { o.c.sm.OnDelRtspSubSession(s) }
+func (o admObs) OnNewRtspSubSessionPlay(s *rtsp.SubSession) error {
+	return o.c.sm.OnNewRtspSubSessionPlay(s)
+}
+func (o admObs) OnDelRtspSubSession(s *rtsp.SubSession) { o.c.sm.OnDelRtspSubSession(s) }
 
 // observer of the stub origin / push target sessions
 type admOriginObs struct {
